@@ -5,7 +5,7 @@
    portable ones on their domain and the degree is a power of two <= MAX_SIMD_DEGREE <= 16. *)
 From Coq Require Import NArith List Bool.
 From V Require Import Base.Res Base.Word Spec.Tree Spec.Blake3 Model.Platform Model.Kernels Model.RsChunk Model.RsWide
-  Model.RsHasher Model.RsXof Model.Machine Proofs.KernelsP Proofs.XofP Proofs.IoP Proofs.HasherP Proofs.C02P Proofs.C04P.
+  Model.RsHasher Model.RsXof Model.Machine Proofs.KernelsP Proofs.XofP Proofs.IoP Proofs.HasherP Proofs.C02P Proofs.C04P Model.SpecMachine Proofs.MachineRefinesP.
 Import ListNotations.
 Open Scope N_scope.
 
@@ -58,7 +58,15 @@ Example C04_nonvacuous :
   rs_hash sse41_platform input = rs_hash avx512_platform input /\ rs_hash avx2_platform input = rs_hash (sim_platform 1 16) input.
 Proof. vm_compute. split; reflexivity. Qed.
 
+(* whole histories over the case language (hashers, readers, offsets, merges, trait operations): any two PlatformOK
+   platforms produce identical observation sequences *)
+Theorem C04_machine_platform_independent : forall p1 p2, PlatformOK p1 -> PlatformOK p2 -> forall pn1 pn2 m ops obs,
+  mode_ok m -> spec_run_case m ops = Some obs ->
+  Machine.run_case p1 pn1 m ops = Machine.run_case p2 pn2 m ops.
+Proof. exact machine_platform_independent. Qed.
+
 Print Assumptions C04_hash.
+Print Assumptions C04_machine_platform_independent.
 Print Assumptions C04_keyed_hash.
 Print Assumptions C04_derive_key.
 Print Assumptions C04_histories.
